@@ -64,7 +64,7 @@ def _lemmas():
 
 UNIT = Unit(
     name="U-GENPHASE",
-    properties=["C19"],
+    properties=["C19", "C14"],
     rules=["attrs", ("cell", ["counter"])],
     describe="env::Gensym::gensym returns its prefix followed by the decimal counter; and for every prefix the match compiler hands to it (build time: the "
              "temporaries stored in a .core file) and every prefix a later pass hands to it (lifting, ANF, Go back end: link time, with a FRESH counter) "
